@@ -12,7 +12,7 @@ Require Import Grits.Base Grits.ModeDefs Grits.Modes Grits.STypes Grits.Forms Gr
                Grits.Tc Grits.TcTop Grits.spec.SynOk
                Grits.Runtime Grits.spec.RtTyping Grits.spec.Topo Grits.proofs.RtSubst Grits.proofs.RtEffect
                Grits.proofs.StepErrors Grits.proofs.RtSafety Grits.proofs.RtInit Grits.proofs.RtProgress
-               Grits.proofs.RtTheorems Grits.proofs.RtTcSyn Grits.proofs.RtTcBisim.
+               Grits.proofs.RtTheorems Grits.proofs.RtStaticCheck Grits.proofs.RtTcSyn Grits.proofs.RtTcBisim.
 
 (* ------------------------------------------------------------------ one statically typed program *)
 Section OneProgram.
@@ -147,6 +147,36 @@ Theorem progress_sync_run_tc_partial p p' :
 Proof.
   intros Ha Hf PS RS Ht.
   exact (progress_sync_one _ p' (teq_rt_laws _) (tc_annotations_typed_rt p p' Ha PS RS Hf) Ht).
+Qed.
+
+(* ------------------------------------------------------------------ the two computable premises, as the check module evaluates them *)
+Inductive syn_verdict : Type :=
+  SY_ok | SY_types_not_syn | SY_names_not_syn | SY_outside_fragment | SY_rejected | SY_parse_error.
+Definition syn_premises_text (txt : string) : syn_verdict :=
+  match parse_string txt with
+  | POk p =>
+    match typecheck p with
+    | Accept p' =>
+      if in_fragment_b p' then
+        (if prog_syn_ok p then (if rt_syn_ok p then SY_ok else SY_names_not_syn) else SY_types_not_syn)
+      else SY_outside_fragment
+    | _ => SY_rejected
+    end
+  | _ => SY_parse_error
+  end.
+
+(* where the answer is SY_ok the annotated output of the typechecker is typed in the run-time judgement *)
+Theorem syn_premises_sound txt : syn_premises_text txt = SY_ok ->
+  exists p p', parse_string txt = POk p /\ typecheck p = Accept p' /\ in_fragment p' /\
+               prog_syn_ok p = true /\ rt_syn_ok p = true /\
+               static_typed (teq_rt (p_types p')) p'.
+Proof.
+  unfold syn_premises_text. destruct (parse_string txt) as [p| | |]; try discriminate.
+  destruct (typecheck p) as [p'| | |] eqn:Et; try discriminate.
+  destruct (in_fragment_b p') eqn:Ef; [|discriminate]. apply in_fragment_b_sound in Ef.
+  destruct (prog_syn_ok p) eqn:PS; [|discriminate]. destruct (rt_syn_ok p) eqn:RS; [|discriminate].
+  intros _. exists p, p'. split; [reflexivity|]. split; [exact Et|]. split; [exact Ef|].
+  split; [exact PS|]. split; [exact RS|]. apply (tc_annotations_typed_rt p p' Et PS RS Ef).
 Qed.
 
 (* ------------------------------------------------------------------ the premises hold of the examples *)
